@@ -1,20 +1,47 @@
 import RV.C18.Model
+import RV.C18.XModel
 import RV.Base.Proto
 /-
-  C18 driver.  Protocol (terms and graph names are naturals owned by the harness):
-    reset                      -> ok          (empty store, both logs empty)
+  C18 driver.  Protocol (terms, graph names, prefixes and namespaces are naturals owned by the harness):
+    reset                      -> ok          (empty store, both logs empty; wrappers 0 and 1 side by side)
+    reset-nested               -> ok          (wrapper 0 wraps wrapper 1 wraps the store)
     init s p o c               -> ok          (quad put into the wrapped store directly)
     add w s p o c              -> ok          (through wrapper w ∈ {0,1})
     remove w s p o c           -> ok          (each position a number or `*`)
+    addn w (s p o c)*          -> ok          (Store.addN / += / a parser's adds: GOp.addN)
+    isub w (s p o c)*          -> ok          (Graph.__isub__)
+    set w s p o c              -> ok          (Graph.set)
+    rmctx w c                  -> ok          (ConjunctiveGraph.remove_context)
+    addf w s p o c (s p o)*    -> ok          (quad whose graph is a Graph of another store holding the listed triples)
+    bind w pfx ns ov           -> ok          (ov ∈ {0,1})
+    pass w                     -> ok          (open / close / destroy / query)
     commit w | rollback w      -> ok
-    obs                        -> the store's quads, sorted:  s,p,o,c s,p,o,c …
+    obs                        -> the store's quads in the code-shaped model (XModel), sorted:  s,p,o,c s,p,o,c …
+    obsw                       -> the same in the abstract model of rounds 1–f (Model.lean: W / St2)
+    triples s p o c            -> store.triples(pattern, context) through the wrapper: s,p,o,c1,c2 … sorted
+    len c                      -> __len__(context)   (`*` = no context)
+    ctxs                       -> contexts(): known graph names, sorted
+    tctx s p o                 -> contexts(triple), sorted
+    ns                         -> the two binding dictionaries: p=n … | n=p …  (sorted)
     log w                      -> length of wrapper w's reverseOps (diagnostic)
 -/
 open RV RV.C18 RV.Proto
 
+structure DS where
+  m : Mem := { cur := [] }
+  log0 : List Entry := []
+  log1 : List Entry := []
+  nested : Bool := false
+  abs : St2 := ⟨[], [], []⟩          -- the abstract model, run side by side (not meaningful when nested)
+
 def showQuads (qs : List Quad) : String :=
   let ls := qs.map (fun q => [q.1, q.2.1, q.2.2.1, q.2.2.2])
   " ".intercalate ((sortBy lexLt ls).map showNats)
+
+def sortNats (xs : List Nat) : List Nat := (sortBy lexLt (xs.map (fun x => [x]))).flatten
+
+def showPairs (ps : List (Nat × Nat)) : String :=
+  " ".intercalate ((sortBy lexLt (ps.map (fun p => [p.1, p.2]))).map (fun l => "=".intercalate (l.map toString)))
 
 def wsel? (w : String) : Option Bool :=
   if w = "0" then some false else if w = "1" then some true else none
@@ -27,33 +54,132 @@ def pat? (a b c d : String) : Option Pat := do
   let a ← optNat? a; let b ← optNat? b; let c ← optNat? c; let d ← optNat? d
   pure (a, b, c, d)
 
-def step (s : St2) : List String → St2 × String
-  | ["reset"] => (⟨[], [], []⟩, "ok")
+/-- one non-read call through wrapper `w` -/
+def DS.op (s : DS) (w : Bool) (o : XOp) : DS :=
+  if s.nested then
+    if w then
+      let r := (XW.mk s.m s.log1).step o
+      { s with m := r.m, log1 := r.log }
+    else
+      let r := (Nest.mk s.m s.log1 s.log0).cmd (.op o)
+      { s with m := r.m, log1 := r.logIn, log0 := r.logOut }
+  else
+    let r := (X2.mk s.m s.log0 s.log1).step (w, o)
+    { s with m := r.m, log0 := r.log0, log1 := r.log1 }
+
+/-- a graph-level operation = the calls it makes, in order (both models) -/
+def DS.gop (s : DS) (w : Bool) (g : GOp) : DS :=
+  g.expand.foldl (fun s o =>
+    let a := match o with
+      | .add q => s.abs.step (w, .add q)
+      | .remove p => s.abs.step (w, .remove p)
+      | _ => s.abs
+    { s.op w o with abs := a }) s
+
+def quads? : List String → Option (List Quad)
+  | [] => some []
+  | a :: b :: c :: d :: r => do
+    let q ← quad? a b c d
+    let qs ← quads? r
+    pure (q :: qs)
+  | _ => none
+
+def triples? : List String → Option (List Triple)
+  | [] => some []
+  | a :: b :: c :: r => do
+    let a ← a.toNat?; let b ← b.toNat?; let c ← c.toNat?
+    let ts ← triples? r
+    pure ((a, b, c) :: ts)
+  | _ => none
+
+def DS.boundary (s : DS) (w : Bool) (rollback : Bool) : DS :=
+  if s.nested then
+    let c : NCmd := match w, rollback with
+      | false, false => .commitOut
+      | false, true => .rollbackOut
+      | true, false => .commitIn
+      | true, true => .rollbackIn
+    let r := (Nest.mk s.m s.log1 s.log0).cmd c
+    { s with m := r.m, log1 := r.logIn, log0 := r.logOut }
+  else
+    let x := X2.mk s.m s.log0 s.log1
+    let r := if rollback then x.rollback w else x.commit w
+    let a := if rollback then s.abs.rollback w else s.abs.commit w
+    { s with m := r.m, log0 := r.log0, log1 := r.log1, abs := a }
+
+def step (s : DS) : List String → DS × String
+  | ["reset"] => ({}, "ok")
+  | ["reset-nested"] => ({ nested := true }, "ok")
   | ["init", a, b, c, d] =>
     match quad? a b c d with
-    | some q => ({ s with cur := sinsert s.cur q }, "ok")
+    | some q => ({ s with m := s.m.add q, abs := { s.abs with cur := sinsert s.abs.cur q } }, "ok")
     | none => (s, "bad-op")
   | ["add", w, a, b, c, d] =>
     match wsel? w, quad? a b c d with
-    | some w, some q => (s.step (w, .add q), "ok")
+    | some w, some q => ({ s.op w (.add q) with abs := s.abs.step (w, .add q) }, "ok")
     | _, _ => (s, "bad-op")
   | ["remove", w, a, b, c, d] =>
     match wsel? w, pat? a b c d with
-    | some w, some p => (s.step (w, .remove p), "ok")
+    | some w, some p => ({ s.op w (.remove p) with abs := s.abs.step (w, .remove p) }, "ok")
     | _, _ => (s, "bad-op")
+  | "addn" :: w :: r =>
+    match wsel? w, quads? r with
+    | some w, some qs => (s.gop w (.addN qs), "ok")
+    | _, _ => (s, "bad-op")
+  | "isub" :: w :: r =>
+    match wsel? w, quads? r with
+    | some w, some qs => (s.gop w (.isub qs), "ok")
+    | _, _ => (s, "bad-op")
+  | ["set", w, a, b, c, d] =>
+    match wsel? w, quad? a b c d with
+    | some w, some q => (s.gop w (.set q), "ok")
+    | _, _ => (s, "bad-op")
+  | ["rmctx", w, g] =>
+    match wsel? w, g.toNat? with
+    | some w, some g => (s.gop w (.removeContext g), "ok")
+    | _, _ => (s, "bad-op")
+  | "addf" :: w :: a :: b :: c :: d :: r =>
+    match wsel? w, quad? a b c d, triples? r with
+    | some w, some q, some ts => (s.gop w (.addForeign q ts), "ok")
+    | _, _, _ => (s, "bad-op")
+  | ["bind", w, a, b, o] =>
+    match wsel? w, a.toNat?, b.toNat?, wsel? o with
+    | some w, some a, some b, some o => (s.op w (.bind a b o), "ok")
+    | _, _, _, _ => (s, "bad-op")
+  | ["pass", w] =>
+    match wsel? w with
+    | some w => (s.op w .pass, "ok")
+    | none => (s, "bad-op")
   | ["commit", w] =>
     match wsel? w with
-    | some w => (s.commit w, "ok")
+    | some w => (s.boundary w false, "ok")
     | none => (s, "bad-op")
   | ["rollback", w] =>
     match wsel? w with
-    | some w => (s.rollback w, "ok")
+    | some w => (s.boundary w true, "ok")
     | none => (s, "bad-op")
-  | ["obs"] => (s, showQuads s.cur)
+  | ["obs"] => (s, showQuads s.m.cur)
+  | ["obsw"] => (s, showQuads s.abs.cur)
+  | ["triples", a, b, c, d] =>
+    match pat? a b c d with
+    | some p =>
+      let ls := (memTriples s.m.cur p).map (fun tc => [tc.1.1, tc.1.2.1, tc.1.2.2] ++ sortNats tc.2)
+      (s, " ".intercalate ((sortBy lexLt ls).map showNats))
+    | none => (s, "bad-op")
+  | ["len", c] =>
+    match optNat? c with
+    | some g => (s, toString (memLen s.m.cur g))
+    | none => (s, "bad-op")
+  | ["ctxs"] => (s, showNats (sortNats (memContexts s.m none)))
+  | ["tctx", a, b, c] =>
+    match a.toNat?, b.toNat?, c.toNat? with
+    | some a, some b, some c => (s, showNats (sortNats (memContexts s.m (some (a, b, c)))))
+    | _, _, _ => (s, "bad-op")
+  | ["ns"] => (s, showPairs s.m.b.ns ++ " | " ++ showPairs s.m.b.pf)
   | ["log", w] =>
     match wsel? w with
-    | some w => (s, toString (s.w w).log.length)
+    | some w => (s, toString (if w then s.log1 else s.log0).length)
     | none => (s, "bad-op")
   | _ => (s, "bad-op")
 
-def main : IO Unit := RV.Proto.run step (⟨[], [], []⟩ : St2)
+def main : IO Unit := RV.Proto.run step ({} : DS)
